@@ -124,6 +124,9 @@ pub fn run(ctx: &Ctx) -> Report {
 				}
 				let e = by_family!(f, c09_case(t, &mut vs));
 				r.evaluations += e;
+				if t.len() <= 12 {
+					r.evaluations += by_family!(f, c09_reused_handle_case(t, &mut vs));
+				}
 				r.states += 1;
 				r.traces += 1;
 				if t.split(|c| *c == b'/').any(|s| s == b"." || s == b"..") {
